@@ -131,7 +131,7 @@ def check(case):
             except gfapy.Error:
                 reported = "write"
         vrep = None
-        if reported in (None, "write-marker"):
+        if reported != "set":
             try:
                 l.validate()
             except gfapy.Error:
@@ -197,6 +197,9 @@ def check(case):
                 fail("unrepresentable-value-not-reported:%s" % dt, "%r written as %r" % (value, text))
             elif vlevel >= 2 and reported is None:
                 fail("unrepresentable-value-written-at-level%d:%s" % (vlevel, dt), "%r written as %r" % (value, text))
+            elif reported != "set" and vrep is None:
+                # "reported by validation (and by writing at level >= 2)": validate() itself must object, not only the writer
+                fail("unrepresentable-value-passes-validate:%s" % dt, "%r (written as %r)" % (value, text))
     except gfapy.Error as e:
         fail("raises-%s" % type(e).__name__, harness.short(e, 150))
     except Exception as e:
